@@ -24,13 +24,20 @@ SameTP(a, b) == meta[a].topic = meta[b].topic /\ meta[a].part = meta[b].part
 \* franz-go keeps the head that is largest by (epoch, offset)
 Less(a, b) == a.epoch < b.epoch \/ (a.epoch = b.epoch /\ a.head < b.head)
 HeadOf(r) == [head |-> meta[r].off + 1, epoch |-> meta[r].epoch]
+\* a record whose offset was handed out again under a higher leader epoch no longer exists in the log (truncation after an
+\* unclean leader election): a mark cannot "pass" it any more
+Superseded(x) == \E y \in Ids : fate[y] # "unread" /\ SameTP(x, y) /\ meta[y].epoch > meta[x].epoch /\ meta[y].off <= meta[x].off
+\* records the consumer was handed by the broker: unfinished as long as they have not been acked / dropped / refused,
+\* also when the consumer never passed them to the pipeline
+Unfinished(x) == fate[x] \in {"inflight", "fetched"} /\ ~Superseded(x)
+Passed(x, m) == meta[x].topic = m.topic /\ meta[x].part = m.part /\ meta[x].off < m.head /\ meta[x].epoch <= m.epoch
 
 \* marks observed right after a record was handed to the pipeline (the consumer must not mark on its own what passes an unfinished record)
 \* only heads that do not come from a Commit (issued or in progress) are judged here; commit-derived heads are judged at the Commit line
 MarksViol(t) ==
   LET fromCommit(m) == \E c \in committed \cup committing : meta[c].topic = m.topic /\ meta[c].part = m.part /\ meta[c].off + 1 = m.head
   IN UNION {{[kind |-> "mark_past_unfinished", id |-> t.id, other |-> q, info |-> "not_from_commit"] :
-               q \in {x \in Ids : fate[x] = "inflight" /\ meta[x].topic = m.topic /\ meta[x].part = m.part /\ meta[x].off < m.head}}
+               q \in {x \in Ids : Unfinished(x) /\ Passed(x, m)}}
             : m \in {x \in SeqToSet(t.marks) : ~fromCommit(x)}}
 
 CommitViol(t, com) ==
@@ -45,8 +52,9 @@ CommitViol(t, com) ==
       v3 == {[kind |-> "mark_foreign", id |-> id, other |-> m.part, info |-> ""] :
                m \in {x \in marks : ~\E c \in com : meta[c].topic = x.topic /\ meta[c].part = x.part}}
       v4 == UNION {{[kind |-> "mark_past_unfinished", id |-> id, other |-> q,
-                     info |-> IF fate[id] \in Finished THEN "self_finished" ELSE "self_unfinished"] :
-                      q \in {x \in Ids : x # id /\ fate[x] = "inflight" /\ SameTP(x, id) /\ meta[x].off < m.head}} : m \in mine}
+                     info |-> IF fate[q] = "fetched" THEN "never_entered_pipeline"
+                              ELSE IF fate[id] \in Finished THEN "self_finished" ELSE "self_unfinished"] :
+                      q \in {x \in Ids : x # id /\ Unfinished(x) /\ Passed(x, m)}} : m \in mine}
       v5 == IF fate[id] \notin Finished
               THEN {[kind |-> "mark_of_unfinished", id |-> id, other |-> 0, info |-> fate[id]]} ELSE {}
   IN v1 \cup v2 \cup v3 \cup v4 \cup v5
@@ -56,6 +64,9 @@ Step ==
   /\ LET t == Trace[l] IN
        /\ CASE t.ev = "Reset" -> /\ fate' = [i \in Ids |-> "unread"] /\ meta' = [i \in Ids |-> NoMeta] /\ committed' = {} /\ committing' = {}
                                  /\ UNCHANGED out
+            [] t.ev = "Fetched" -> /\ fate' = [fate EXCEPT ![t.id] = IF @ = "unread" THEN "fetched" ELSE @]
+                                   /\ meta' = [meta EXCEPT ![t.id] = [topic |-> t.topic, part |-> t.part, off |-> t.off, epoch |-> t.epoch]]
+                                   /\ UNCHANGED <<committed, committing, out>>
             [] t.ev = "InCall" -> /\ fate' = [fate EXCEPT ![t.id] = "inflight"]
                                   /\ meta' = [meta EXCEPT ![t.id] = [topic |-> t.topic, part |-> t.part, off |-> t.off, epoch |-> t.epoch]]
                                   /\ UNCHANGED <<committed, committing, out>>
@@ -75,7 +86,7 @@ Step ==
             [] t.ev = "BrokerCommit" ->
                  /\ out' = out \cup
                       {[run |-> t.run, n |-> t.n, v |-> [kind |-> "broker_commit_past_unfinished", id |-> q, other |-> t.offset, info |-> ""]] :
-                         q \in {x \in Ids : fate[x] = "inflight" /\ meta[x].topic = t.topic /\ meta[x].part = t.part /\ meta[x].off < t.offset}}
+                         q \in {x \in Ids : Unfinished(x) /\ meta[x].topic = t.topic /\ meta[x].part = t.part /\ meta[x].off < t.offset}}
                       \cup (IF \E x \in Ids : fate[x] # "unread" /\ meta[x].topic = t.topic /\ meta[x].part = t.part THEN {}
                             ELSE {[run |-> t.run, n |-> t.n, v |-> [kind |-> "broker_commit_foreign", id |-> 0, other |-> t.offset, info |-> ""]]})
                  /\ UNCHANGED <<fate, meta, committed, committing>>
